@@ -11,9 +11,9 @@ CHECKS = {
   "note": 'A Gallina function is deterministic by construction; the content of this property is in the execution and the census.',
  },
  "C09": {
-  "text": "Coq: declarative predicates over provider-call histories (Causal, Once, Exact in Async/History.v) with executable checkers proven equivalent for every provider and every history (causalb_spec, onceb_spec, exactb_spec). The real solver's call history (no hints; 1-3 solves per solver; sync and yielding runtimes) is judged by the extracted checkers; exactness is checked whenever the verified greedy oracle applies.",
-  "technique": "Coq-verified history checkers (checker <-> declarative trace predicate) applied to provider-call histories of the implementation",
-  "note": "The theorem is about the trace predicate and its checker; the causal structure is not derived from a model of the encoder.",
+  "text": "Coq: executable model of the encoder and the request side of the cache (Async/Encoder.v) with the property proven about it for every provider, problem, cache contents, trail history and encode-request sequence: C09_model_once (nothing requested twice over the cache lifetime), C09_model_causal, C09_model_lazy (no hints: dependencies only for solvables the solver assigned true), C09_model_exact. The model is run on the encode requests of every synchronous real solve and must reproduce the provider-call sequence call for call. In addition declarative predicates over provider-call histories (Causal, Once, Exact in Async/History.v) with executable checkers proven equivalent for every provider and every history (causalb_spec, onceb_spec, exactb_spec). The real solver's call history (no hints; 1-3 solves per solver; sync and yielding runtimes) is judged by the extracted checkers; exactness is checked whenever the verified greedy oracle applies.",
+  "technique": "Coq theorems about an executable encoder+cache model (once / causal / lazy / exact for all inputs) in call-for-call correspondence with the implementation + Coq-verified history checkers on real provider-call histories",
+  "note": "The model fixes the synchronous completion order; asynchronous completions and successive solves on one solver are judged by the verified history checkers on real histories.",
  },
  "C10": {
   "text": "Every case is solved under completion orders chosen by a schedule-controlled executor (FIFO, LIFO, random, bounded depth-first enumeration of alternatives at every choice point) with deadlock detection that needs no timeout; per schedule: termination, verdict equal to the synchronous one, solution valid per the verified oracle o_valid, no repeated provider request per the verified history checker onceb (C10_*).",
@@ -66,7 +66,7 @@ CHECKS = {
   "technique": "Coq refinement proof of a functional model + in-Coq functional correspondence on operation sequences",
  },
  "C02": {
-  "text": 'Coq: E1 (every valid selection satisfies every encoder clause), RUP soundness, check_unsat_sound: a database of facts and learnt clauses certified by RUP from their recorded antecedents that propagates to a root-level conflict admits no valid selection (C02_trace_no_false_unsat), hence a solvable problem is never acceptably refuted. Every Unsolvable hook log goes through the extracted checker; every verdict is compared with the verified complete reference procedure.',
+  "text": 'Coq: E1 (every valid selection satisfies every encoder clause), RUP soundness, check_unsat_sound: a database of facts and learnt clauses certified by RUP from their recorded antecedents that propagates to a root-level conflict admits no valid selection (C02_trace_no_false_unsat), hence a solvable problem is never acceptably refuted. Every Unsolvable hook log goes through the extracted checker; every verdict is compared with the verified complete reference procedure. The executable encoder model is proven to add only facts for every request sequence and trail history (C02_encoder_adds_facts, C02_encoder_sound) and is compared with the clause database of the implementation clause for clause on every synchronous run.',
   "technique": 'Coq refutation-certificate theorem (facts + RUP-checked learnt clauses) + verified trace checker + verified reference decision procedure',
   "note": "Termination of the CDCL loop is observed (poll watchdog), not proved: 'returns a solution whenever one exists' is proved for runs that end.",
  },
@@ -90,7 +90,7 @@ CHECKS = {
   "note": 'Soft requirements are outside the theorem (explored only).',
  },
  "C01": {
-  "text": "Coq: E2 (a model of a closed clause database selects a valid set, any provider), final-state theorem check_sat_lenient_sound, and trace inclusion C01_trace_sound: if the extracted checker accepts the implementation's hook log (clause dump = facts of the encoding, legal trail events, reported solution) the solution is valid. Independently every returned solution (debug+release, sync+yield) is judged by the verified oracle o_valid.",
+  "text": "Coq: E2 (a model of a closed clause database selects a valid set, any provider), final-state theorem check_sat_lenient_sound, and trace inclusion C01_trace_sound: if the extracted checker accepts the implementation's hook log (clause dump = facts of the encoding, legal trail events, reported solution) the solution is valid. Independently every returned solution (debug+release, sync+yield) is judged by the verified oracle o_valid. The encoder itself (encoding.rs + cache.rs request side) has an executable Coq model, proven complete for every request sequence and trail history (C01_encoder_complete, C01_encoder_model_valid) and compared with the implementation clause for clause on every synchronous run.",
   "technique": 'Coq theorem over all runs of an abstract CDCL machine + verified trace checker on hook logs + Coq-verified validity oracle on outputs',
  },
 }
